@@ -164,12 +164,9 @@ pub fn check_delivery(w: &World, plan: &Plan, prop: &str, is_async: bool) -> Opt
                     return v(prop, "4-consume", "size", "recv", format!("message {}: receiver-side size() {} != sent frame length {}", i, size, a.frame_len));
                 }
                 let r = &w.recvs[*ri];
-                if let RecvOutcome::Msg { occupied, revalidates, .. } = &r.outcome {
+                if let RecvOutcome::Msg { occupied, .. } = &r.outcome {
                     if *size > *occupied {
                         return v(prop, "4-consume", "over-consume", "recv", format!("message {}: size() {} exceeds the {} bytes held", i, size, occupied));
-                    }
-                    if !*revalidates {
-                        return v(prop, "2-sequence", "invalid-guard", "recv", format!("message {}: guard bytes do not validate", i));
                     }
                 }
             }
